@@ -621,6 +621,16 @@ func registerLibIntrinsics() {
 	}
 
 	// strconv
+	for name, f := range map[string]func(string) string{"strings.ToLower": strings.ToLower, "strings.ToUpper": strings.ToUpper, "strings.TrimSpace": strings.TrimSpace} {
+		f, name := f, name
+		I[name] = func(in *Interp, fr *frame, args []Value) (Value, bool) {
+			c, ok := strArg(args[0]).Concrete()
+			if !ok {
+				in.unsupported("%s of a symbolic string", name)
+			}
+			return CStr(f(c)), true
+		}
+	}
 	// Split on a one-byte separator: concrete bytes split where they stand, a symbolic byte
 	// forks on being the separator, a symbolic string of unknown length forks on containing
 	// the separator at all (not contained: it stays in its piece; contained: unsupported)
